@@ -187,3 +187,15 @@ reg("C09", "E2-history-bfs",
     "Old side of compare carries hashes (build+md5). chmod list of the second compare only counted. User "
     "mutations happen between, not during, library calls.",
     "DESIGN.md §4 C09")
+
+reg("C10", "E2-history-bfs",
+    "exhaustive enumeration of (existing link type, user mutation, target, configured link type, store class, state, second workspace) on the real checkout sequence force / repeat / relink",
+    "Prior workspace = real checkout of tree A or B with existing link type {copy, hardlink, symlink} + one of 6 "
+    "kind-preserving user mutations; target A or B under configured type {copy, hardlink, symlink, default} x both "
+    "store classes x state on/off x a second workspace {none, hardlinked, symlinked} to the same cache: 3456 "
+    "sequences of forced checkout, repeated checkout, relinking checkout. Oracle: exact files and bytes; the "
+    "repeat returns falsy and leaves every lstat unchanged; after relink every file is an independent copy / "
+    "shares the cache inode (or is a plain empty file) / is a symlink to the cache path; cache bytes unchanged "
+    "and still 0o444; saved link record == (inode, fresh get_mtime_and_size token).",
+    "Tree A holds duplicate and empty contents. No successful reflink on this file system.",
+    "DESIGN.md §4 C10")
